@@ -739,13 +739,23 @@ func (e *Env) evalCall(n *ECall) (cval, error) {
 			h = HLockR
 		}
 		return cval{t: c.held(e.st, h, m), typ: intT}, nil
-	case "calls", "last":
+	case "calls", "last", "fails":
 		if err := need(1); err != nil {
 			return cval{}, err
 		}
 		s, ok := n.Args[0].(*EStr)
 		if !ok {
 			return cval{}, fmt.Errorf("%s needs a string literal", n.Fn)
+		}
+		if n.Fn == "fails" {
+			// fails("F"): traced calls of F since entry that returned a non-nil error
+			h := "CntFail_" + sanitize(s.V)
+			c.R.Heap(h, "Int")
+			base := IntLit(0)
+			if c.entry != nil {
+				base = c.getHeap(c.entry, h)
+			}
+			return cval{t: sub(c.getHeap(e.st, h), base), typ: intT}, nil
 		}
 		c.R.Heap("Clock", "Int")
 		c.R.Heap(traceKey(s.V), "Int")
